@@ -281,10 +281,6 @@ func (c *Ctx) ruleWriteShape() {
 						break
 					}
 					edges := c.appendCondEdges(fc.fn)
-					if len(edges) == 0 {
-						okF, detF = false, "no test of attrs&EFI_VARIABLE_APPEND_WRITE found where the flags are chosen"
-						break
-					}
 					behind := false
 					for _, e := range edges {
 						if fc.from.Index == e.To || ir.EdgeDominates(fc.fn, e, fc.from) {
